@@ -47,7 +47,7 @@ def gen_name(rng):
     return "fallback name"
 
 
-FIXED = ['a"b', '"', '""', 'a""b', 'x"', '"x', '"""', ' lead', '  two lead', '-dash', '-', 'a b', 'a  b', 'semi;colon', 'a=b', 'Type=dir; x',
+FIXED = ['a  b  c', '   x   y', 'a"b', '"', '""', 'a""b', 'x"', '"x', '"""', ' lead', '  two lead', '-dash', '-', 'a b', 'a  b', 'semi;colon', 'a=b', 'Type=dir; x',
          'a -> b', '226 done', '226-more', '150', '2', 'back\\slash', 'per%cent', 'tab\there', 'é', '😀', 'nb sp', ' lead-nbsp',
          'C:', 'a:b', '~', '*', '?', '.hidden', 'dots...', 'Jan 01 00:00 x', '-rw-r--r-- 1 a a 0 Jan 01 00:00 x', 'x' * 150]
 
